@@ -432,7 +432,27 @@ def make_tqdm():
     return m
 
 
+def make_pandas():
+    m = types.ModuleType("pandas")
+
+    class DataFrame:
+        def __init__(self, *a, **k):
+            raise Inconclusive("pandas.DataFrame is not modelled")
+
+    class Series(DataFrame):
+        pass
+    m.DataFrame, m.Series = DataFrame, Series
+
+    def _un(name):
+        def f(*a, **k):
+            raise Inconclusive("pandas.%s is not modelled" % name)
+        return f
+    for n in ("read_csv", "concat"):
+        setattr(m, n, _un(n))
+    return m
+
+
 def standard_shims():
     torch = make_torch()
-    shims = {"torch": torch, "numpy": make_numpy(), "numba": make_numba(), "tqdm": make_tqdm()}
+    shims = {"torch": torch, "numpy": make_numpy(), "numba": make_numba(), "tqdm": make_tqdm(), "pandas": make_pandas()}
     return shims
